@@ -144,6 +144,86 @@ fn c_operand_level(level: u64) -> u64 {
     }
 }
 
+// Native replay support.  The level harnesses are *defined* by their stubs, which exist only under Kani; run
+// natively (concrete playback) the same operator tokens are instead pushed through the REAL, complete
+// `parse_expression` and the resulting tree is compared with the C / GNU ld precedence table -- an end-to-end
+// witness such as `1 & 2 == 3`.  `under_kani()` is false natively and stubbed to true under Kani.
+fn under_kani() -> bool {
+    false
+}
+fn stub_under_kani() -> bool {
+    true
+}
+
+/// C / ldgram.y binding strength of a binary operator token (higher binds tighter).
+fn c_precedence(t: u8) -> u8 {
+    match t {
+        2 | 3 => 10,          // * /
+        0 | 1 => 9,           // + -
+        4 | 5 => 8,           // << >>
+        6 | 7 | 8 | 9 => 7,   // < > <= >=
+        10 | 11 => 6,         // == !=
+        12 => 5,              // &
+        13 => 4,              // ^
+        14 => 3,              // |
+        15 => 2,              // &&
+        _ => 1,               // ||
+    }
+}
+
+fn end_to_end_agrees(t1: u8, t2: u8) -> bool {
+    let b1 = token_bytes(t1);
+    let b2 = token_bytes(t2);
+    let buf = [b'1', b' ', b1[0], b1[1], b' ', b'2', b2[0], b2[1], b'3'];
+    let mut input: &BStr = BStr::new(&buf[..]);
+    let Ok(tree) = parse_expression(&mut input) else { return true };
+    if !input.is_empty() {
+        return true; // partial parse: the surrounding construct rejects the expression
+    }
+    let left_nested = c_precedence(t1) >= c_precedence(t2);
+    match node_token(&tree) {
+        Some((outer, l, r)) => {
+            if left_nested {
+                outer == t2 && leaf_value(r) == Some(3)
+                    && matches!(node_token(l), Some((inner, a, b)) if inner == t1 && leaf_value(a) == Some(1) && leaf_value(b) == Some(2))
+            } else {
+                outer == t1 && leaf_value(l) == Some(1)
+                    && matches!(node_token(r), Some((inner, a, b)) if inner == t2 && leaf_value(a) == Some(2) && leaf_value(b) == Some(3))
+            }
+        }
+        None => false,
+    }
+}
+
+/// Native replay of a level harness: the solver's tokens first, then every pair of operator tokens that involves an
+/// operator of this level, through the complete real parser.
+fn native_end_to_end(level: u64, t1: u8, t2: u8) {
+    let mut bad: Option<(u8, u8)> = if end_to_end_agrees(t1, t2) { None } else { Some((t1, t2)) };
+    let mut a = 0;
+    while a < N_TOKENS && bad.is_none() {
+        let mut b = 0;
+        while b < N_TOKENS && bad.is_none() {
+            if (in_level(level, a) || in_level(level, b)) && !end_to_end_agrees(a, b) {
+                bad = Some((a, b));
+            }
+            b += 1;
+        }
+        a += 1;
+    }
+    if let Some((a, b)) = bad {
+        let (x, y) = (token_bytes(a), token_bytes(b));
+        panic!(
+            "end-to-end: `1 {}{} 2 {}{} 3` is parsed by the complete parse_expression differently from C precedence/associativity \
+             [C16.parse operands come from the next tighter level of the C grammar] \
+             [C16.parse operators of one level associate to the left] \
+             [C16.parse consumes only operators of its own level, as written] \
+             [C16.parse unconsumed input starts at the first operator not belonging to the level] \
+             [C16.parse consumed the whole input]",
+            x[0] as char, x[1] as char, y[0] as char, y[1] as char
+        );
+    }
+}
+
 fn check_result<'a>(level: u64, t1: u8, t2: u8, r: winnow::Result<Expression<'a>>, rest: usize) {
     let Ok(tree) = r else {
         return;
@@ -188,6 +268,7 @@ fn check_result<'a>(level: u64, t1: u8, t2: u8, r: winnow::Result<Expression<'a>
 
 #[kani::proof]
 #[kani::unwind(5)]
+#[kani::stub(under_kani, stub_under_kani)]
 #[kani::stub(parse_logical_and, stub_logical_and)]
 #[kani::stub(parse_bitwise_or, stub_bitwise_or)]
 #[kani::stub(parse_bitwise_xor, stub_bitwise_xor)]
@@ -202,6 +283,9 @@ fn c16_parse_logical_or() {
     let t1: u8 = kani::any();
     let t2: u8 = kani::any();
     kani::assume(t1 < N_TOKENS && t2 < N_TOKENS);
+    if !under_kani() {
+        return native_end_to_end(T_LOGICAL_OR, t1, t2);
+    }
     let b1 = token_bytes(t1);
     let b2 = token_bytes(t2);
     let buf = [b'1', b' ', b1[0], b1[1], b' ', b'2', b2[0], b2[1], b'3'];
@@ -213,6 +297,7 @@ fn c16_parse_logical_or() {
 
 #[kani::proof]
 #[kani::unwind(5)]
+#[kani::stub(under_kani, stub_under_kani)]
 #[kani::stub(parse_logical_or, stub_logical_or)]
 #[kani::stub(parse_bitwise_or, stub_bitwise_or)]
 #[kani::stub(parse_bitwise_xor, stub_bitwise_xor)]
@@ -227,6 +312,9 @@ fn c16_parse_logical_and() {
     let t1: u8 = kani::any();
     let t2: u8 = kani::any();
     kani::assume(t1 < N_TOKENS && t2 < N_TOKENS);
+    if !under_kani() {
+        return native_end_to_end(T_LOGICAL_AND, t1, t2);
+    }
     let b1 = token_bytes(t1);
     let b2 = token_bytes(t2);
     let buf = [b'1', b' ', b1[0], b1[1], b' ', b'2', b2[0], b2[1], b'3'];
@@ -238,6 +326,7 @@ fn c16_parse_logical_and() {
 
 #[kani::proof]
 #[kani::unwind(5)]
+#[kani::stub(under_kani, stub_under_kani)]
 #[kani::stub(parse_logical_or, stub_logical_or)]
 #[kani::stub(parse_logical_and, stub_logical_and)]
 #[kani::stub(parse_bitwise_xor, stub_bitwise_xor)]
@@ -252,6 +341,9 @@ fn c16_parse_bitwise_or() {
     let t1: u8 = kani::any();
     let t2: u8 = kani::any();
     kani::assume(t1 < N_TOKENS && t2 < N_TOKENS);
+    if !under_kani() {
+        return native_end_to_end(T_BITWISE_OR, t1, t2);
+    }
     let b1 = token_bytes(t1);
     let b2 = token_bytes(t2);
     let buf = [b'1', b' ', b1[0], b1[1], b' ', b'2', b2[0], b2[1], b'3'];
@@ -263,6 +355,7 @@ fn c16_parse_bitwise_or() {
 
 #[kani::proof]
 #[kani::unwind(5)]
+#[kani::stub(under_kani, stub_under_kani)]
 #[kani::stub(parse_logical_or, stub_logical_or)]
 #[kani::stub(parse_logical_and, stub_logical_and)]
 #[kani::stub(parse_bitwise_or, stub_bitwise_or)]
@@ -277,6 +370,9 @@ fn c16_parse_bitwise_xor() {
     let t1: u8 = kani::any();
     let t2: u8 = kani::any();
     kani::assume(t1 < N_TOKENS && t2 < N_TOKENS);
+    if !under_kani() {
+        return native_end_to_end(T_BITWISE_XOR, t1, t2);
+    }
     let b1 = token_bytes(t1);
     let b2 = token_bytes(t2);
     let buf = [b'1', b' ', b1[0], b1[1], b' ', b'2', b2[0], b2[1], b'3'];
@@ -288,6 +384,7 @@ fn c16_parse_bitwise_xor() {
 
 #[kani::proof]
 #[kani::unwind(5)]
+#[kani::stub(under_kani, stub_under_kani)]
 #[kani::stub(parse_logical_or, stub_logical_or)]
 #[kani::stub(parse_logical_and, stub_logical_and)]
 #[kani::stub(parse_bitwise_or, stub_bitwise_or)]
@@ -302,6 +399,9 @@ fn c16_parse_bitwise_and() {
     let t1: u8 = kani::any();
     let t2: u8 = kani::any();
     kani::assume(t1 < N_TOKENS && t2 < N_TOKENS);
+    if !under_kani() {
+        return native_end_to_end(T_BITWISE_AND, t1, t2);
+    }
     let b1 = token_bytes(t1);
     let b2 = token_bytes(t2);
     let buf = [b'1', b' ', b1[0], b1[1], b' ', b'2', b2[0], b2[1], b'3'];
@@ -313,6 +413,7 @@ fn c16_parse_bitwise_and() {
 
 #[kani::proof]
 #[kani::unwind(5)]
+#[kani::stub(under_kani, stub_under_kani)]
 #[kani::stub(parse_logical_or, stub_logical_or)]
 #[kani::stub(parse_logical_and, stub_logical_and)]
 #[kani::stub(parse_bitwise_or, stub_bitwise_or)]
@@ -327,6 +428,9 @@ fn c16_parse_comparison() {
     let t1: u8 = kani::any();
     let t2: u8 = kani::any();
     kani::assume(t1 < N_TOKENS && t2 < N_TOKENS);
+    if !under_kani() {
+        return native_end_to_end(T_COMPARISON, t1, t2);
+    }
     let b1 = token_bytes(t1);
     let b2 = token_bytes(t2);
     let buf = [b'1', b' ', b1[0], b1[1], b' ', b'2', b2[0], b2[1], b'3'];
@@ -341,6 +445,7 @@ fn c16_parse_comparison() {
 
 #[kani::proof]
 #[kani::unwind(5)]
+#[kani::stub(under_kani, stub_under_kani)]
 #[kani::stub(parse_logical_or, stub_logical_or)]
 #[kani::stub(parse_logical_and, stub_logical_and)]
 #[kani::stub(parse_bitwise_or, stub_bitwise_or)]
@@ -355,6 +460,9 @@ fn c16_parse_shift() {
     let t1: u8 = kani::any();
     let t2: u8 = kani::any();
     kani::assume(t1 < N_TOKENS && t2 < N_TOKENS);
+    if !under_kani() {
+        return native_end_to_end(T_SHIFT, t1, t2);
+    }
     let b1 = token_bytes(t1);
     let b2 = token_bytes(t2);
     let buf = [b'1', b' ', b1[0], b1[1], b' ', b'2', b2[0], b2[1], b'3'];
@@ -366,6 +474,7 @@ fn c16_parse_shift() {
 
 #[kani::proof]
 #[kani::unwind(5)]
+#[kani::stub(under_kani, stub_under_kani)]
 #[kani::stub(parse_logical_or, stub_logical_or)]
 #[kani::stub(parse_logical_and, stub_logical_and)]
 #[kani::stub(parse_bitwise_or, stub_bitwise_or)]
@@ -380,6 +489,9 @@ fn c16_parse_additive() {
     let t1: u8 = kani::any();
     let t2: u8 = kani::any();
     kani::assume(t1 < N_TOKENS && t2 < N_TOKENS);
+    if !under_kani() {
+        return native_end_to_end(T_ADDITIVE, t1, t2);
+    }
     let b1 = token_bytes(t1);
     let b2 = token_bytes(t2);
     let buf = [b'1', b' ', b1[0], b1[1], b' ', b'2', b2[0], b2[1], b'3'];
@@ -391,6 +503,7 @@ fn c16_parse_additive() {
 
 #[kani::proof]
 #[kani::unwind(5)]
+#[kani::stub(under_kani, stub_under_kani)]
 #[kani::stub(parse_logical_or, stub_logical_or)]
 #[kani::stub(parse_logical_and, stub_logical_and)]
 #[kani::stub(parse_bitwise_or, stub_bitwise_or)]
@@ -405,6 +518,9 @@ fn c16_parse_multiplicative() {
     let t1: u8 = kani::any();
     let t2: u8 = kani::any();
     kani::assume(t1 < N_TOKENS && t2 < N_TOKENS);
+    if !under_kani() {
+        return native_end_to_end(T_MULTIPLICATIVE, t1, t2);
+    }
     let b1 = token_bytes(t1);
     let b2 = token_bytes(t2);
     let buf = [b'1', b' ', b1[0], b1[1], b' ', b'2', b2[0], b2[1], b'3'];
